@@ -30,7 +30,7 @@ from . import core
 LEVEL = "model_checking"
 
 # ------------------------------------------------------------------ schema dump for the spec
-SPEC_OPS = ["DFT", "GridSample", "GroupNormalization", "Relu", "Cast", "Add", "If", "Neg", "Identity",
+SPEC_OPS = ["DFT", "GridSample", "GroupNormalization", "Relu", "Cast", "Add", "If", "Loop", "Neg", "Identity",
             "Constant", "Reshape", "Expand"]
 
 
@@ -196,6 +196,7 @@ def build_model(case: dict, feed_seed: int = 0):
     nodes, ins, outs, inits, functions = [], [], [], [], []
     feeds = {}
     conds = []
+    trips = []
     opsets = [h.make_opsetid("", s)]
     for i, it in enumerate(case["items"], start=1):
         b = build_item(i, it["kind"], it["par"], s, rng)
@@ -233,6 +234,26 @@ def build_model(case: dict, feed_seed: int = 0):
             tg = h.make_graph(then_nodes, f"then{i}", [], [tvi])
             eg = h.make_graph(else_nodes, f"else{i}", [], [evi])
             nodes.append(h.make_node("If", [c], [y], then_branch=tg, else_branch=eg, name=f"if{i}"))
+        elif place == "loopbody":
+            # Loop(m, k) with a body whose scan output is the item's output (item reads outer-scope values)
+            mname, kname = f"m{i}", f"k{i}"
+            ins.append(_vi(mname, T.INT64, []))
+            ins.append(_vi(kname, T.BOOL, []))
+            trips.append((mname, kname))
+            if len(b["nodes"]) != 1:
+                raise core.MachineryError(f"item kind {it['kind']} cannot be placed in a Loop body")
+            y = b["y"]
+            body_nodes = [h.make_node("Identity", [f"cin{i}"], [f"cout{i}"], name=f"idc{i}")] + copy.deepcopy(b["nodes"])
+            body_nodes[-1].name += "_l"
+            body_nodes[-1].output[0] = y + "_l"
+            ovi = b["outs"][0]
+            bvi = copy.deepcopy(ovi)
+            bvi.name = y + "_l"
+            bg = h.make_graph(body_nodes, f"body{i}", [_vi(f"it{i}", T.INT64, []), _vi(f"cin{i}", T.BOOL, [])],
+                              [_vi(f"cout{i}", T.BOOL, []), bvi])
+            nodes.append(h.make_node("Loop", [mname, kname], [y], body=bg, name=f"loop{i}"))
+            dims = [d.dim_value if d.HasField("dim_value") else (d.dim_param or None) for d in ovi.type.tensor_type.shape.dim]
+            outs[-1] = _vi(y, b["outtype"], [None] + dims)
         elif place == "func":
             fin = [v.name for v in b["ins"]] + [t.name for t in b["inits"] if t.name not in {v.name for v in b["ins"]}]
             fops = [h.make_opsetid("", s)]
@@ -253,6 +274,9 @@ def build_model(case: dict, feed_seed: int = 0):
         f = dict(base)
         for c in conds:
             f[c] = np.array(variant == 0, dtype=np.bool_)
+        for mname, kname in trips:
+            f[mname] = np.array(2 + variant, dtype=np.int64)
+            f[kname] = np.array(True, dtype=np.bool_)
         if variant == 1:
             r2 = np.random.default_rng([case.get("seed", 0), feed_seed, 77])
             for k, v in list(f.items()):
@@ -380,16 +404,37 @@ def observe(case: dict) -> dict:
     logging.getLogger("onnxscript").setLevel(logging.CRITICAL)
     m, feedsets = build_model(case)
     t, entry, fb = case["t"], case["entry"], bool(case["fb"])
+    mid, stamp = int(case.get("mid", 0) or 0), bool(case.get("stamp", False))
+    # the object the caller holds: an ir.Model (optionally with node.version stamps, as a
+    # builder/exporter leaves them) or a ModelProto
+    if entry == "ir":
+        obj = ir.serde.deserialize_model(copy.deepcopy(m))
+        if stamp:
+            for n in ir.traversal.RecursiveGraphIterator(obj.graph):
+                if n.domain in ("", "ai.onnx"):
+                    n.version = case["s"]
+    else:
+        obj = copy.deepcopy(m)
+    first_exc = None
+    if mid:
+        # history: the same object was converted before (s -> mid); the call under judgement is
+        # mid -> t and its "source model" is what the first call left behind
+        try:
+            version_converter.convert_version(obj, mid, fallback=fb)
+        except Exception as e:  # noqa: BLE001 - a refusal is an outcome
+            first_exc = f"{type(e).__name__}: {str(e)[:120]}"
+        m = copy.deepcopy(ir.serde.serialize_model(obj)) if entry == "ir" else copy.deepcopy(obj)
     before_ck = _checker(m)
     before_run = _run(m, feedsets)
     runnable = not isinstance(before_run, str) and not any(isinstance(r, str) for r in before_run)
-    ob = {"src_checker": before_ck, "src_runnable": runnable}
+    ob = {"src_checker": before_ck, "src_runnable": runnable, "src_declared": _default_opset(m.opset_import),
+          "first_exc": first_exc}
     if not runnable:
         ob["src_run_error"] = before_run if isinstance(before_run, str) else next(r for r in before_run if isinstance(r, str))
     exc = None
     ir_info = None
     if entry == "ir":
-        im = ir.serde.deserialize_model(copy.deepcopy(m))
+        im = obj
         try:
             version_converter.convert_version(im, t, fallback=fb)
         except Exception as e:  # noqa: BLE001 - a refusal is an outcome
@@ -409,7 +454,7 @@ def observe(case: dict) -> dict:
             ob.update({"exc": exc, "ir": ir_info, "serialize_error": f"{type(e).__name__}: {str(e)[:120]}"})
             return ob
     else:
-        r = copy.deepcopy(m)
+        r = obj
         try:
             version_converter.convert_version(r, t, fallback=fb)
         except Exception as e:  # noqa: BLE001
@@ -450,7 +495,8 @@ def _norm_shape(shape, with_mode=True):
 
 def judge(case: dict, ob: dict) -> list[tuple[str, str]]:
     """-> [(clause, what)] : the clauses of the property that the REAL result violates."""
-    s, t = case["s"], case["t"]
+    t = case["t"]
+    s = ob["src_declared"][0] if len(set(ob.get("src_declared") or [])) == 1 else case["s"]
     bad = []
     if "serialize_error" in ob:
         return [("valid", f"converted ir.Model cannot be serialised: {ob['serialize_error']}")]
@@ -529,6 +575,7 @@ def compare_model(rec: dict, ob: dict) -> list[str]:
 
 def case_of(rec: dict) -> dict:
     return {"s": rec["s"], "t": rec["t"], "entry": rec["entry"], "fb": rec["fb"],
+            "mid": rec.get("mid", 0), "stamp": rec.get("stamp", False),
             "items": [{"kind": i["kind"], "place": i["place"], "par": i["par"]} for i in rec["items"]]}
 
 
@@ -543,7 +590,9 @@ def item_text(i: dict) -> str:
 
 def case_text(c: dict) -> str:
     its = "+".join(item_text(i) for i in c["items"])
-    return f"[{its}] opset {c['s']}->{c['t']} entry={c['entry']} fallback={c['fb']}"
+    hist = f"{c['s']}->{c['mid']}->{c['t']} (second call judged)" if c.get("mid") else f"{c['s']}->{c['t']}"
+    return (f"[{its}] opset {hist} entry={c['entry']} fallback={c['fb']}"
+            + (" nodes stamped with version" if c.get("stamp") else ""))
 
 
 def _work(rec):
@@ -608,7 +657,7 @@ def tlc_cases(ctx):
         "impl": ("VersionConvert", _impl_cfg(f"VersionConvert_{tier}.cfg"), dict(workers=max(2, core.NCPU // 2), timeout=2400, heap=heap)),
         "design": ("VersionConvert", f"VersionConvert_design_{tier}.cfg", dict(workers=max(2, core.NCPU // 2), timeout=2400, heap=heap)),
     }
-    for w in ("bites", "vacuity_adapter", "vacuity_fallback", "vacuity_refusal"):
+    for w in ("bites", "vacuity_adapter", "vacuity_fallback", "vacuity_refusal", "vacuity_history", "vacuity_stamp"):
         jobs[w] = ("VersionConvert", f"VersionConvert_{w}.cfg", dict(workers=1, timeout=600, heap="1g"))
     with ThreadPoolExecutor(len(jobs)) as ex:
         futs = {k: ex.submit(core.run_tlc, m, c, env=env, **kw) for k, (m, c, kw) in jobs.items()}
@@ -622,7 +671,7 @@ def tlc_cases(ctx):
                                   f"named deviation explains):\n{res['impl'].out[-2500:]}")
     if res["bites"].ok:
         raise core.MachineryError("vacuity: Prop holds even with all deviations enabled - the invariant cannot fail")
-    for w in ("vacuity_adapter", "vacuity_fallback", "vacuity_refusal"):
+    for w in ("vacuity_adapter", "vacuity_fallback", "vacuity_refusal", "vacuity_history", "vacuity_stamp"):
         if res[w].ok:
             raise core.MachineryError(f"vacuity: witness {w} is unreachable in VersionConvert.tla")
     cases, adapters = _parse_cases(res["impl"].out)
@@ -725,7 +774,7 @@ def run(ctx: core.Ctx):
 def replay(ctx, path):
     with open(path) as f:
         blob = json.load(f)
-    case = {k: blob["case"][k] for k in ("s", "t", "entry", "fb", "items")}
+    case = {k: blob["case"].get(k, 0) for k in ("s", "t", "entry", "fb", "items", "mid", "stamp")}
     logging.getLogger("onnxscript").setLevel(logging.CRITICAL)
     ob = observe(case)
     bad = judge(case, ob)
